@@ -596,6 +596,17 @@ class SchemaGen(object):
                 s.subscription = sub.name
                 for _ in range(rng.randint(1, 3)):
                     sub.fields.append(self.gen_field(sub, leafs + composite))
+        # a naming migration: one input field's python name is another input field's GraphQL name (side stream)
+        side = random.Random("naming-migration:%s" % ",".join(sorted(s.types)))
+        if side.random() < 0.25 and self.features.get("naming_migration", True):
+            it = s.add(SType("input", self.fresh("NamingMigration"), None))
+            it.input_fields = [SInput("createdAt", named("String"), UNSET, None, "created_at"),
+                               SInput("created_at", named("String"), UNSET, None, "legacy_created_at"),
+                               SInput("other", named("Int"), 1)]
+            f = SField(self.fresh("namingMigration"), named("Int"),
+                       [SInput("stamp", named(it.name), collections.OrderedDict([("createdAt", "2020-01-01")]))])
+            self.field_pool[f.name] = f
+            q.fields.append(f)
         # a root type is an ordinary object type: a third of the schemas refer back to the query root from an
         # object type (Relay's `type Payload { query: Query }`); side stream, the main stream stays what it was
         side = random.Random("backref:%s:%d" % (",".join(sorted(s.types)), len(self.field_pool)))
